@@ -117,3 +117,44 @@ def translate_op(ex, node, expected):
     if t != py2lean.VAL:
         raise Unsupported(node, 'checked unboxing of a statically typed value')
     return ex.partial('PyRtC01.unboxKey? %s' % py2lean.FnTranslator._atom(e), node), ('Var', py2lean.HEAP_TP[0])
+
+
+# ---------------------------------------------------------------------------------------------- self-test side
+# (harness/py2lean_selftest.py: CPython vs the generated definitions on object graphs; this module brings the families
+# of object states / arguments for the methods it adds)
+
+def _states(rng, quick):
+    """the OrderedMultiDict snapshots of py2lean_selftest (reachable + corrupted ones) and, in addition, states whose
+    dict is NOT empty although the linked list is (`_clear_ll()` behind the dict's back): there `root[PREV][KEY]` is None,
+    the checked unboxing fails, and the self-test counts the case as `unmodelled` instead of comparing it"""
+    import importlib
+    import py2lean_selftest as T
+    import srctie_specs
+    mod = importlib.import_module('boltons.dictutils')
+    for st in T._omd_states(rng, quick):
+        yield st
+        if st['d'] and rng.random() < 0.1:
+            c = T.heap_build(srctie_specs.OMD, mod.OrderedMultiDict, st, mod._MISSING)
+            try:
+                c._clear_ll()
+            except Exception:  # noqa: BLE001
+                continue
+            yield T.heap_snapshot(srctie_specs.OMD, c, mod._MISSING)[0]
+
+
+def _fam(method):
+    def fam(rng, quick):
+        import py2lean_selftest as T
+        for st in _states(rng, quick):
+            for _ in range(2):
+                case = {'self': st}
+                key = rng.choice(list(st['d']) or T.OMD_KEYS) if rng.random() < 0.6 else rng.choice(T.OMD_KEYS)
+                if method == 'poplast':
+                    case.update(k=key if rng.random() < 0.5 else None, default=rng.choice([None, None, -1, 5]))
+                elif method == 'pop':
+                    case.update(k=key, default=rng.choice([None, None, -1, 5]))
+                yield case
+    return fam
+
+
+FAMILIES = {'OMD.poplast': _fam('poplast'), 'OMD.pop': _fam('pop'), 'OMD.popitem': _fam('popitem')}
